@@ -127,7 +127,11 @@ func init() {
 	s["(*math/big.Int).Set"] = func(in *Interp, fr *frame, a []Value) Value {
 		return in.bigSet(a[0], in.bigGet(a[1]))
 	}
-	s["(*math/big.Int).Uint64"] = func(in *Interp, fr *frame, a []Value) Value { return in.bigGet(a[0]).lo }
+	s["(*math/big.Int).Uint64"] = func(in *Interp, fr *frame, a []Value) Value {
+		// math/big: the low 64 bits of |x| (for a negative x this is NOT the two's-complement word)
+		x := in.bigGet(a[0])
+		return in.tc.Ite(in.bigIsNeg(x), in.bigNeg(x).lo, x.lo)
+	}
 	s["(*math/big.Int).Int64"] = func(in *Interp, fr *frame, a []Value) Value { return in.bigGet(a[0]).lo }
 	s["(*math/big.Int).IsUint64"] = func(in *Interp, fr *frame, a []Value) Value {
 		return in.tc.Eq(in.bigGet(a[0]).hi, in.k64(0))
